@@ -21,6 +21,9 @@ LEVEL = "model_checking"
 
 # development knob: VERIF_WORKERS=4 limits TLC's worker threads (the default is all cores)
 WORKERS = int(os.environ.get("VERIF_WORKERS", "0")) or None
+# the record part (JSON parsing, few long lines) and the exhaustive part run side by side: split the cores
+W_REC = WORKERS or max(2, vlib.NCPU // 4)
+W_EXH = WORKERS or max(2, vlib.NCPU - vlib.NCPU // 4)
 ASAN_ENV = "detect_leaks=0:handle_segv=0:handle_abort=0:allocator_may_return_null=1:exitcode=86:abort_on_error=0"
 FNS = ["tl", "size", "oid", "hex", "dec", "b64"]
 FN_OP = {"tl": "derTLDec", "size": "derTSIZEDec", "oid": "oidFromDER", "hex": "hexIsValid", "dec": "decIsValid", "b64": "b64IsValid"}
@@ -145,7 +148,7 @@ class Bad:
 
 def validate(ctx, path, rows, src, bads, classify=None):
     """Pattern F over an ndjson file; appends Bad records; returns number of lines TLC evaluated."""
-    n, bad, r = vlib.validate_lines(ctx, "Trace_Codec", path, timeout=1000, workers=WORKERS)
+    n, bad, r = vlib.validate_lines(ctx, "Trace_Codec", path, timeout=1000, workers=W_EXH if src == "exhaustive" else W_REC)
     if n < len(rows):
         ctx.note_inconclusive("TLC evaluated %d of %d lines of %s: %s" % (n, len(rows), os.path.basename(path), (r.violation or r.error or "")[:300]))
     spec = {}
@@ -204,7 +207,7 @@ def exhaustive(ctx, drv, fn, bads):
     for l in open(aggf):
         p = l.split()
         impl[(int(p[0]), int(p[1]))] = (tuple(int(x) for x in p[2:9]), int(p[9]))
-    r = vlib.tlc("Gen_DerTL", env=gen_env(ctx, fn), timeout=1000, quiet=True, workers=WORKERS)
+    r = vlib.tlc("Gen_DerTL", env=gen_env(ctx, fn), timeout=1000, quiet=True, workers=W_EXH)
     if vlib.tlc_infra_failed(r) or r.rc != 0:
         ctx.note_inconclusive("Gen_DerTL(%s) gave no table rc=%s %s" % (fn, r.rc, (r.violation or r.error or "")[-300:]))
         return
@@ -359,7 +362,7 @@ def run(ctx):
 
     # 1. anchors of the reference semantics (a failure here means the SPECIFICATION is wrong)
     def vectors():
-        r = vlib.tlc("CodecVectors", timeout=600, quiet=True, workers=WORKERS)
+        r = vlib.tlc("CodecVectors", timeout=600, quiet=True, workers=W_REC)
         ev.cov["spec_vectors_states"] = r.distinct
         if r.rc != 0:
             ctx.note_inconclusive("ref/CodecVectors.tla fails (specification error, nothing is reported against the code): %s"
